@@ -560,3 +560,51 @@ def fold_base_array(repo: Repo) -> dict | None:
         return None
     except (TypeError, KeyError, IndexError, AttributeError):
         return None
+
+
+def fold_union_call(repo: Repo) -> dict | None:
+    """UnionMetaType.__call__ over the kinds of argument: a union that was parsed (from bytes, bytearray, memoryview or a stream) keeps the parsed
+    buffer; only values given by the user rebuild it from the first given member; a default-constructed union is proxified."""
+    fi = repo.func("types/structure.py", "UnionMetaType.__call__")
+    import itertools
+
+    stream = Sym("stream", {}, {"read": Host(lambda n=-1: b"")})
+    cases = {
+        "bytes": ((b"\x01\x02\x03\x04",), {}, "parsed"),
+        "a bytearray": ((bytearray(b"\x01\x02\x03\x04"),), {}, "parsed"),
+        "a memoryview": ((memoryview(b"\x01\x02\x03\x04"),), {}, "parsed"),
+        "a stream": ((stream,), {}, "parsed"),
+        "a positional value": ((5,), {}, "rebuild:a"),
+        "two positional values": ((5, 6), {}, "rebuild:a"),
+        "a keyword value": ((), {"b": 7}, "rebuild:b"),
+        "nothing": ((), {}, "proxify"),
+    }
+    out: dict = {"cases": 0, "bad": []}
+    try:
+        for label, (args, kwargs, want) in cases.items():
+            trace: list = []
+            obj = Sym("union-object", {}, {"_rebuild": Host(lambda name, trace=trace: trace.append(f"rebuild:{name}")),
+                                           "_proxify": Host(lambda trace=trace: trace.append("proxify"))})
+            fields = [Sym("fa", {"_name": "a", "name": "a"}), Sym("fb", {"_name": "b", "name": "b"})]
+            cls = Sym("U", {"__fields__": fields, "lookup": {"a": fields[0], "b": fields[1]}, "dynamic": False})
+
+            def isinst(o, k):
+                ks = k if isinstance(k, tuple) else (k,)
+                if all(x in (bytes, bytearray, memoryview, int, str) for x in ks):
+                    return isinstance(o, ks)
+                raise Refused("isinstance against a non-builtin")
+
+            env = {"super": Host(lambda obj=obj: Sym("super", {}, {"__call__": Host(lambda *a, **k: obj)})), "isinstance": Host(isinst),
+                   "hasattr": Host(lambda o, n: isinstance(o, Sym) and (n in o.attrs or n in o.methods)), "bytearray": bytearray, "memoryview": memoryview,
+                   "chain": Host(lambda *its: list(itertools.chain(*its))), "next": Host(lambda it, *d: next(iter(it), *d)),
+                   **{q: UserFunc(f.node) for q, f in repo.module("types/base.py").functions.items() if "." not in q}}
+            Evaluator(env, steps=4000).call_user(UserFunc(fi.node), [cls, *args], dict(kwargs))
+            out["cases"] += 1
+            got = trace[0] if len(trace) == 1 else ("parsed" if not trace else trace)
+            if got != want:
+                out["bad"].append((label, got, want))
+        return out
+    except Refused:
+        return None
+    except (TypeError, KeyError, IndexError, ValueError, AttributeError):
+        return None
